@@ -93,6 +93,7 @@ def generate(unit_dir, mustfail=False, mutate=None, variant=None, template='unit
         lines = f.read().split('\n')
     lines = expand_includes(lines)
     FORBID[0] = None
+    del FORBIDDEN_HIT[:]
     for l in lines[:3]:
         if l.startswith('//@@ unit '):
             FORBID[0] = parse_opts(l.split()[3:]).get('forbid')
@@ -237,6 +238,8 @@ def generate(unit_dir, mustfail=False, mutate=None, variant=None, template='unit
                 spec['retname'] = o['retname']
             if o.get('r7'):
                 spec['r7'] = set(int(x) for x in o['r7'].split(','))
+            if o.get('r7v'):
+                spec['r7v'] = set(int(x) for x in o['r7v'].split(','))
                 spec['rules'].add('R7')
             # sections
             i += 1
@@ -413,9 +416,47 @@ def generate(unit_dir, mustfail=False, mutate=None, variant=None, template='unit
             extra.append('}' if plain else '} }')
         out[k:k] = extra
     g.text = '\n'.join(out)
+    g.auto_forbidden = list(FORBIDDEN_HIT)
     return g
 
 
+_CALL = re.compile(r'(?:([A-Za-z_][A-Za-z0-9_]*)\s*(\.|::)\s*)?\b([a-z_][a-z0-9_]*)\s*(?:::\s*<[^()]*?>)?\s*\(')
+
+
+def _defined_fns(rf, name):
+    out = []
+    for mm in re.finditer(r'\bfn\s+%s\b' % re.escape(name), rf.m):
+        chain = rf.enclosing(mm.start())
+        if any(rf._is_test_mod(h) for k, h, _ in chain):
+            continue
+        out.append(rf._fn_extent(mm.start()))
+    return out
+
+
+def reaches_forbidden(rf, raw, start):
+    """Name-level reachability inside one source file.  Returns the chain of names from `start` to a forbidden function the file
+    defines (or to `<..>event_log.append`), or None.  Only used to give a NEW callee of a `forbid=` unit its contract."""
+    seen = {start}
+    work = [(raw, [start])]
+    while work:
+        txt, chain = work.pop()
+        m = mask(txt)
+        o = m.find('{')
+        for mm in _CALL.finditer(m, o if o >= 0 else 0):
+            recv, sep, name = mm.group(1), mm.group(2), mm.group(3)
+            if name in ('if', 'while', 'match', 'for', 'return', 'loop', 'fn'):
+                continue
+            defs = _defined_fns(rf, name)
+            if re.search(FORBID[0], name) and (defs or (sep == '.' and recv and recv.endswith('log'))):
+                return chain + [name]
+            if defs and name not in seen:
+                seen.add(name)
+                for (a, kw, bo, bc) in defs:
+                    work.append((rf.text[a:bc + 1], chain + [name]))
+    return None
+
+
+FORBIDDEN_HIT = []  # quals of auto-stubbed callees that got `requires false` in this generation
 FORBID = [None]      # regex set from the unit header (`forbid=<regex>`): callees a unit's functions must never reach
 
 
@@ -429,8 +470,18 @@ def stub_text(st, plain):
     head = re.sub(r'\basync\s+', '', head)
     if FORBID[0] and re.search(FORBID[0], st['qual'].split('::')[-1]):
         st['forbidden'] = True
+        FORBIDDEN_HIT.append(st['qual'])
         return ('#[verifier::external_body] // AUTO-STUB of a callee this unit forbids: reaching it is the violation\n' + head.rstrip()
                 + '\n    requires false,      // [readonly.no_write_to_the_truth_log_is_reachable]\n{ unimplemented!() }')
+    if FORBID[0]:
+        # a unit that forbids callees is about what is REACHABLE: the text of a new callee is followed, by name, through the functions
+        # its source file defines; if a forbidden function of the repository is reached the stub gets the same `requires false`
+        chain = reaches_forbidden(rf, raw, st['qual'].split('::')[-1])
+        if chain:
+            st['forbidden'] = True
+            FORBIDDEN_HIT.append(st['qual'])
+            return ('#[verifier::external_body] // AUTO-STUB of a callee that reaches a forbidden one (%s): reaching it is the violation\n' % ' -> '.join(chain)
+                    + head.rstrip() + '\n    requires false,      // [readonly.no_write_to_the_truth_log_is_reachable]\n{ unimplemented!() }')
     return '#[verifier::external_body] // AUTO-STUB: callee without a contract (new or not listed in the unit)\n' + head.rstrip() + ' { unimplemented!() }'
 
 
